@@ -505,13 +505,26 @@ Theorem C16_law_clone_independent_spec : forall d before a1 a2 a3,
 Proof. exact law_clone_independent_spec. Qed.
 Print Assumptions C16_law_clone_independent_spec.
 
-Theorem C16_law_clone_independent_accepts_model : forall d, law_clone_independent d d d d d = true.
-Proof. exact law_clone_independent_model. Qed.
-Print Assumptions C16_law_clone_independent_accepts_model.
+(* soundness: a true answer means every later observation of the source IS the first one, as records *)
+Theorem C16_law_clone_independent_sound : forall d before a1 a2 a3,
+  law_clone_independent d before a1 a2 a3 = true -> before = d /\ a1 = before /\ a2 = before /\ a3 = before.
+Proof. exact law_clone_independent_sound. Qed.
+Print Assumptions C16_law_clone_independent_sound.
+
+(* law 108 (argument / source observed after an operation = observed before) is list equality *)
+Theorem C16_law_unchanged_spec : forall before after, law_unchanged before after = true <-> before = after.
+Proof. exact law_unchanged_spec. Qed.
+Print Assumptions C16_law_unchanged_spec.
 
 Theorem C16_law_sub_add_accepts_model : forall r x, law_sub_add r x (sub r x) (add (sub r x) x) = true.
 Proof. exact law_sub_add_model. Qed.
 Print Assumptions C16_law_sub_add_accepts_model.
+
+Theorem C16_law_sub_add_sound : forall r x S B, law_sub_add r x S B = true ->
+  cpu B = cpu r /\ mem B = mem r /\ cpu S = cpu r - cpu x /\ mem S = mem r - mem x /\
+  (sc r <> None -> forall k, sget B k = sget r k /\ sget S k = sget r k - sget x k).
+Proof. exact law_sub_add_sound. Qed.
+Print Assumptions C16_law_sub_add_sound.
 
 Theorem C16_law_min_inf_accepts_model : forall r rr, law_min_inf r rr (min_dim r rr DInf) = true.
 Proof. exact law_min_inf_model. Qed.
